@@ -41,6 +41,42 @@ func callsNamed(fn *ssa.Function, names ...string) bool {
 	return false
 }
 
+// reachesCallee: fn calls one of the named functions, directly or through module functions it calls statically (a helper on
+// the way from a feeder's FeedLog to feeder.Run must be followed, not summarised).
+func reachesCallee(fn *ssa.Function, depth int, names ...string) bool {
+	if depth > 4 {
+		return false
+	}
+	hit := false
+	var walk func(f *ssa.Function)
+	walk = func(f *ssa.Function) {
+		for _, b := range f.Blocks {
+			for _, in := range b.Instrs {
+				c, ok := in.(ssa.CallInstruction)
+				if !ok || hit {
+					continue
+				}
+				n := ssaCallName(c.Common())
+				for _, want := range names {
+					if n == want {
+						hit = true
+					}
+				}
+				if sc := c.Common().StaticCallee(); sc != nil && !hit && sc != fn && sc.Parent() == nil && strings.HasPrefix(pkgPathOf(sc), modPath) && pkgPathOf(sc) == pkgPathOf(fn) {
+					if reachesCallee(sc, depth+1, names...) {
+						hit = true
+					}
+				}
+			}
+		}
+		for _, a := range f.AnonFuncs {
+			walk(a)
+		}
+	}
+	walk(fn)
+	return hit
+}
+
 func resolveAnchors(w *World) {
 	nameAlias = map[string]string{}
 	defer func() {
@@ -70,6 +106,69 @@ func resolveAnchors(w *World) {
 		return hit
 	}
 	// the bastion connection loop: the function of the bastion package that serves an HTTP/2 connection
+	if w.byName[fnConnect] == nil {
+		// … as FeedBastion starts it: when the loop and the single connection attempt are separate functions, the loop is the
+		// one FeedBastion calls, among the package's functions from which ServeConn is reached
+		if fb := w.byName[fnFeedBastion]; fb != nil {
+			reach := map[*ssa.Function]bool{}
+			var reaches func(fn *ssa.Function, depth int) bool
+			reaches = func(fn *ssa.Function, depth int) bool {
+				if v, ok := reach[fn]; ok {
+					return v
+				}
+				reach[fn] = false
+				if depth > 6 || !strings.HasPrefix(pkgPathOf(fn), pBastion) {
+					return false
+				}
+				hit := false
+				var walk func(f *ssa.Function)
+				walk = func(f *ssa.Function) {
+					for _, b := range f.Blocks {
+						for _, in := range b.Instrs {
+							c, ok := in.(ssa.CallInstruction)
+							if !ok {
+								continue
+							}
+							if ssaCallName(c.Common()) == "(*golang.org/x/net/http2.Server).ServeConn" {
+								hit = true
+							}
+							if sc := c.Common().StaticCallee(); sc != nil && sc.Parent() == nil && sc != fn && reaches(sc, depth+1) {
+								hit = true
+							}
+						}
+					}
+					for _, a := range f.AnonFuncs {
+						walk(a)
+					}
+				}
+				walk(fn)
+				reach[fn] = hit
+				return hit
+			}
+			var cands []*ssa.Function
+			seen := map[*ssa.Function]bool{}
+			var scan func(f *ssa.Function)
+			scan = func(f *ssa.Function) {
+				for _, b := range f.Blocks {
+					for _, in := range b.Instrs {
+						if c, ok := in.(ssa.CallInstruction); ok {
+							if sc := c.Common().StaticCallee(); sc != nil && sc.Parent() == nil && !seen[sc] && reaches(sc, 0) {
+								seen[sc] = true
+								cands = append(cands, sc)
+							}
+						}
+					}
+				}
+				for _, a := range f.AnonFuncs {
+					scan(a)
+				}
+			}
+			scan(fb)
+			if len(cands) == 1 {
+				reg(fnConnect, cands[0])
+			}
+		}
+	}
 	if w.byName[fnConnect] == nil {
 		reg(fnConnect, topLevel(func(fn *ssa.Function) bool {
 			return strings.HasPrefix(pkgPathOf(fn), pBastion) && callsNamed(fn, "(*golang.org/x/net/http2.Server).ServeConn")
